@@ -24,6 +24,11 @@ def main():
         i = args.index("--sed")
         seds.append(args[i + 1])
         del args[i:i + 2]
+    reverts = []
+    while "--revert" in args:
+        i = args.index("--revert")
+        reverts.append(args[i + 1])
+        del args[i:i + 2]
     patch = None
     if args and not args[0].upper().startswith("C") or (args and os.path.exists(args[0])):
         patch = args.pop(0)
@@ -42,6 +47,12 @@ def main():
                 if r2.returncode != 0:
                     print("PATCH-FAILED", r.stderr, r2.stdout, r2.stderr)
                     return 3
+        for c in reverts:
+            diff = subprocess.run(["git", "-C", "/repo", "show", c], capture_output=True, text=True).stdout
+            r = subprocess.run(["git", "-C", wt, "apply", "-R", "--3way", "-"], input=diff, capture_output=True, text=True)
+            if r.returncode != 0:
+                print("REVERT-FAILED", c, r.stderr)
+                return 3
         for sed in seds:
             f, old, new = sed.split("::")
             p = os.path.join(wt, f)
